@@ -26,6 +26,8 @@ OBLIGATIONS = [
     (P + "limits_respected", "declared length over the multipart limit (multipart) / content limit (other) -> 413 before any byte is looked at, whatever the bytes"),
     (P + "refused_not_partial", "a refused request delivers no field and no file"),
     (P + "raw_filter_sees_each_byte_once", "raw content filter: concatenation of the chunks it is given = the first content_length bytes, each once, in order; completes exactly at content_length"),
+    (P + "multipart_filter_sees_each_part_once", "multipart filter, well-formed body, any chunking: callbacks minus progress reports = per part on_new_file(size 0), on_data_ready(full size), in order, then on_end_of_content"),
+    (P + "filter_events_chunking_independent", "for every body the filter callbacks other than progress reports do not depend on the chunking"),
     (P + "malformed_urlencoded_refused", "a urlencoded POST body within limits with an item without '=' or with an empty name is refused with 400 (D11, fixed)"),
     (P + "urlencoded_roundtrip", "parse_form_urlencoded applied to k=v&... written by util::urlencode returns exactly the pairs, in order"),
     (P + "urlencoded_request_roundtrip", "... and the request delivers them as post() under any chunking"),
